@@ -36,6 +36,7 @@ type World struct {
 	specLits  []string
 	mutGlobals map[*ssa.Global]bool
 	pureResultSort map[string]string
+	pureResultType map[string]types.Type
 }
 
 func LoadWorld(repo string, patterns []string, verifDir string) (*World, error) {
@@ -46,7 +47,7 @@ func LoadWorld(repo string, patterns []string, verifDir string) (*World, error) 
 	}
 	w := &World{Repo: repo, Pkgs: pkgs, SSAPkgs: map[string]*ssa.Package{}, Sorts: NewSorts(), Contracts: NewContractSet(),
 		ufs: map[string]string{}, typeIDs: map[string]int{}, globals: map[*ssa.Global]int{}, funcIDs: map[*ssa.Function]int{},
-		funcsByKey: map[string]*ssa.Function{}, pure: map[string]bool{}, noHeap: map[string]bool{}, pureResultSort: map[string]string{}}
+		funcsByKey: map[string]*ssa.Function{}, pure: map[string]bool{}, noHeap: map[string]bool{}, pureResultSort: map[string]string{}, pureResultType: map[string]types.Type{}}
 	for _, p := range pkgs {
 		for _, e := range p.Errors {
 			w.LoadErrs = append(w.LoadErrs, e.Error())
@@ -137,6 +138,11 @@ func (w *World) loadTables(path string, into map[string]bool) {
 		l = strings.TrimSpace(l)
 		if l == "" || strings.HasPrefix(l, "#") {
 			continue
+		}
+		if k := strings.Index(l, " -> "); k >= 0 {
+			// "name -> Sort": the result sort, for functions that contracts mention but the code under contract does not call
+			w.pureResultSort[strings.TrimSpace(l[:k])] = strings.TrimSpace(l[k+4:])
+			l = strings.TrimSpace(l[:k])
 		}
 		into[l] = true
 	}
@@ -449,6 +455,12 @@ func (w *World) SpecConst(env *Env, name string) (Val, bool) {
 	}
 	obj := env.pkg.Scope().Lookup(name)
 	if obj == nil {
+		// package-level variables that exist only in go/ssa (init$guard)
+		if sp := w.SSAPkgs[env.pkg.Path()]; sp != nil {
+			if g, ok := sp.Members[name].(*ssa.Global); ok {
+				return env.deref(env.e.val(g)), true
+			}
+		}
 		return Val{}, false
 	}
 	switch o := obj.(type) {
@@ -461,7 +473,7 @@ func (w *World) SpecConst(env *Env, name string) (Val, bool) {
 	case *types.Var:
 		if sp := w.SSAPkgs[env.pkg.Path()]; sp != nil {
 			if g, ok := sp.Members[name].(*ssa.Global); ok {
-				if w.ImmutableGlobal(g) {
+				if w.ImmutableGlobal(g) && !env.e.isPkgInit() {
 					return Val{T: w.GlobalConst(g), Ty: g.Type().Underlying().(*types.Pointer).Elem()}, true
 				}
 				gv := env.e.val(g)
